@@ -35,6 +35,11 @@ def residue_list(sysdef):
     return out
 
 
+def resid_of(sysdef, name, r):
+    tdef = G.get_typedef(sysdef, name)
+    return (tdef.get("resids") or list(range(1, len(tdef["res"]) + 1)))[r]
+
+
 def supplied_coords(reslist):
     """deterministic, well separated, non-lattice positions for every residue / atom (3 decimals, inside the box)"""
     centres, atoms = {}, {}
@@ -50,6 +55,7 @@ def configs(tier):
     base_mols = [
         [("CH3", 1), ("DI3", 1), ("W", 2)],
         [("W", 1), ("MIX3", 1), ("CH2", 1)],
+        [("DUPB", 1), ("W", 1)],        # residue ids restart inside the molecule (di-block numbered per block)
     ]
     for mols in base_mols:
         types = sorted({n for n, _ in mols})
@@ -111,10 +117,10 @@ def materialise(cfg):
         mi, name, r, resname, names = rl[i]
         if cfg["kind"] == "c":
             for an in names:
-                in_atoms.append((r + 1, resname, an))
+                in_atoms.append((resid_of(sysd, name, r), resname, an))
                 in_coords.append(tuple(atoms[(mi, r, an)]))
         else:
-            in_atoms.append((r + 1, resname, names[0]))
+            in_atoms.append((resid_of(sysd, name, r), resname, names[0]))
             in_coords.append(tuple(centres[(mi, r)]))
     if in_atoms:
         sysd["input"] = dict(kind=cfg["kind"], atoms=in_atoms, coords=in_coords, box=BOX)
@@ -175,9 +181,16 @@ def judge(cfg, sysd, exp, res, choices):
         return viols
     gro_atoms = res["gro"][0]
     flat = []
+    ridx = {}      # (molecule, position of the atom in the molecule) -> residue index, from the type definition
+    for (mi, name, r, resname, names) in exp["rl"]:
+        for an in names:
+            ridx.setdefault(mi, []).append((r, resname, an))
     for mi, mol in enumerate(fa):
-        for (resid, resname, an, p) in mol:
-            flat.append((mi, resid - 1, an, p))
+        for k, (resid, resname, an, p) in enumerate(mol):
+            if k >= len(ridx.get(mi, [])) or ridx[mi][k][1:] != (resname, an):
+                bad("building-with-supplied-coordinates-succeeds", f"molecule {mi} atom {k}: {resname}:{an} does not follow the topology")
+                return viols
+            flat.append((mi, ridx[mi][k][0], an, p))
     if len(flat) != len(gro_atoms):
         bad("building-with-supplied-coordinates-succeeds", f"{len(gro_atoms)} atoms in file, {len(flat)} in memory")
         return viols
